@@ -137,7 +137,7 @@ func (c cacheNode) SetWithExpireCtx(ctx context.Context, key string, val any,
 		expire = c.aroundDuration(c.expiry)
 	}
 
-	return c.rds.SetexCtx(ctx, key, string(data), int(math.Ceil(expire.Seconds())))
+	return c.rds.SetexCtx(ctx, key, string(data), ttlSeconds(expire))
 }
 
 // String returns a string that represents the cacheNode.
@@ -282,7 +282,18 @@ func (c cacheNode) processCache(ctx context.Context, key, data string, v any) er
 }
 
 func (c cacheNode) setCacheWithNotFound(ctx context.Context, key string) error {
-	seconds := int(math.Ceil(c.aroundDuration(c.notFoundExpiry).Seconds()))
+	seconds := ttlSeconds(c.aroundDuration(c.notFoundExpiry))
 	_, err := c.rds.SetnxExCtx(ctx, key, notFoundPlaceholder, seconds)
 	return err
+}
+
+// ttlSeconds rounds d up to whole seconds, but never below one second: zero seconds
+// (a jittered expiry below one nanosecond, or a negative value after an overflow)
+// would make redis store the key without any expiration.
+func ttlSeconds(d time.Duration) int {
+	if seconds := int(math.Ceil(d.Seconds())); seconds > 1 {
+		return seconds
+	}
+
+	return 1
 }
